@@ -243,7 +243,7 @@ def rule_WM4(rep, prog, q, ex):
 
 def rule_MP5(rep, prog, q):
     rid = rep.rule("C03-MP5", "a blocked dispatch_sync caller handed a queue level is woken only when that level is not an inner queue; for inner queues the waiter is "
-                   "pushed down / redirected to the target so that it also acquires the levels below (down to the serial bottom)", floor=2)
+                   "pushed down / redirected to the target so that it also acquires the levels below (down to the serial bottom)", floor=4)
     wake_names = ("_dispatch_waiter_wake", "_dispatch_waiter_wake_wlh_anon")
     for name in ("_dispatch_non_barrier_waiter_redirect_or_wake", "_dispatch_barrier_waiter_redirect_or_wake"):
         fn = prog.fn(name)
@@ -274,6 +274,47 @@ def rule_MP5(rep, prog, q):
         pushes = icalls_slot(prog, fn, "dq_push")
         rep.require(rid, bool(pushes), fn.file, name, "inner-queue-no-push:%s" % name, "%s must push the waiter to the target queue for inner queues" % name,
                     sample={"pushes": len(pushes)})
+        if name == "_dispatch_barrier_waiter_redirect_or_wake":
+            # the waiter pushed down carries the lock kind of the level it is pushed TO: DC_FLAG_BARRIER set for a serial target, cleared for a concurrent
+            # one - also when the immediate reader-slot reservation failed and the waiter is queued instead (it will be handed the barrier lock of a
+            # concurrent queue otherwise, and the completion releases that level as a reader: the level stays barrier-locked for ever)
+            B = q.c["DC_FLAG_BARRIER"]
+            M64 = (1 << 64) - 1
+            wts = [w for w in (width1_test_of(prog, fn, i.ops[0]) for i in fn.all_insts() if i.op == "br" and i.ops) if w]
+            if not wts:
+                rep.unknown(rid, "anchor vanished: %s does not test the target's dq_width" % name)
+            def kind_of_store(st):
+                v = fn.inst(st.ops[0])
+                if v is None:
+                    return None
+                if v.op == "or" and any(o[0] == "c" and (o[1] & B) for o in v.ops):
+                    return "set"
+                if v.op == "and" and any(o[0] == "c" and not (o[1] & B) and (o[1] | B) & M64 == M64 for o in v.ops):
+                    return "clear"
+                return None
+            for pcall in pushes:
+                for kind, inst, cx, path in paths.walk(fn, entry_point(fn), lambda i: i is pcall):
+                    if kind != "hit":
+                        continue
+                    serial = None
+                    for pol, root, ic in wts:
+                        tv = cx.truth.get(ic.id)
+                        if tv is not None:
+                            serial = (tv == pol)
+                    last = None
+                    for b in path:
+                        for i in fn.blocks[b].insts:
+                            if i is pcall:
+                                break
+                            if i.op == "store" and "dc_flags" in prog.fields(i) and kind_of_store(i):
+                                last = kind_of_store(i)
+                    want_kind = {True: "set", False: "clear"}.get(serial)
+                    rep.require(rid, want_kind is not None and last == want_kind, pcall.loc, name, "pushed-waiter-lock-kind:%s" % ("serial" if serial else "concurrent"),
+                                "%s pushes the waiter to a target found %s with DC_FLAG_BARRIER %s (path %s): the waiter must carry the kind of lock of the level it is "
+                                "queued on - queued on a concurrent queue as a barrier it is handed the full barrier lock, which the completion (width > 1: reader) never "
+                                "gives back, and everything behind it on that queue is stranded"
+                                % (name, {True: "serial", False: "concurrent", None: "of untested width"}[serial], {"set": "set", "clear": "cleared", None: "left as it was"}[last], path),
+                                sample={"target": "serial" if serial else "concurrent", "flag": last})
         if name == "_dispatch_non_barrier_waiter_redirect_or_wake":
             # the lock kind for the next level is chosen from the NEXT level's width (the target), and a reader slot is only ever reserved on a level
             # that this test found concurrent
